@@ -72,3 +72,117 @@ def _strings_in(params):
 
 
 # models are registered by the property modules' needs below (kept in one place for auditability)
+
+import re as _re
+
+
+def _walk_params(x, out):
+    """collect (kind, string, quote) for every string-carrying parameter found in a nested JSON-ish structure"""
+    if isinstance(x, dict):
+        for v in x.values():
+            _walk_params(v, out)
+    elif isinstance(x, (list, tuple)):
+        if len(x) >= 2 and x[0] == "str" and isinstance(x[1], str):
+            out.append(("str", x[1], "'"))
+        elif len(x) >= 2 and x[0] == "lang" and isinstance(x[1], (list, tuple)):
+            for it in x[1]:
+                if isinstance(it, (list, tuple)) and len(it) == 2 and isinstance(it[1], str):
+                    out.append(("lang", it[1], '"'))
+        elif len(x) == 6 and x[0] == "pos" and isinstance(x[1], str):
+            out.append(("pos", x[1], "'"))
+        else:
+            for v in x:
+                _walk_params(v, out)
+
+
+def _lexable_single(text, q):
+    return _re.fullmatch(q + r"(?:\\[\s\S]|[^\\\r\n\f" + q + r"])*" + q, text) is not None
+
+
+def sim_print_parse(s, q, kind="str"):
+    """Value obtained by the documented printing of a string value (single line literal with the preferred quote escaped,
+    multi line literal when it contains a line break) followed by the documented parsing; None = not a lexable literal."""
+    from vf import t2a
+
+    if kind == "pos" or "\n" not in s or all(l.startswith(" ") for l in s.split("\n")) or ("'''" in s and '"""' in s):
+        text = q + s.replace(q, "\\" + q).replace("\n", "\\n") + q
+        if not _lexable_single(text, q):
+            return None
+        return t2a.dec_single(text)
+    # multi line literal: backslashes are kept; carriage returns count as line breaks
+    return s.replace("\r\n", "\n").replace("\r", "\n")
+
+
+def _trigger(s):
+    return "\\" in s or "\r" in s or "\f" in s
+
+
+def _norm_param(p):
+    """JSON lists -> comparable tuples"""
+    if isinstance(p, list):
+        return tuple(_norm_param(x) for x in p)
+    return p
+
+
+def _explains_value_change(expected, got):
+    """expected / got: canonical parameter keys. True iff every difference is the predicted effect of the escape rules."""
+    expected, got = _norm_param(expected), _norm_param(got)
+    if expected is None or got is None or expected[0] != got[0]:
+        return False
+    k = expected[0]
+    if k == "str":
+        pairs = [(expected[1], got[1], "'", "str")]
+    elif k == "lang":
+        if [a for a, _ in expected[1]] != [a for a, _ in got[1]]:
+            return False
+        pairs = [(e[1], g[1], '"', "lang") for e, g in zip(expected[1], got[1])]
+    elif k == "pos":
+        if expected[2:] != got[2:]:
+            return False
+        pairs = [(expected[1], got[1], "'", "pos")]
+    else:
+        return False
+    changed = False
+    for e, g, q, kind in pairs:
+        if e == g:
+            continue
+        changed = True
+        if not _trigger(e):
+            return False
+        pred = sim_print_parse(e, q, kind)
+        if pred is not None and pred != g:
+            if "\r" in e and "\n" in pred:
+                # a carriage return inside a multi line literal is a line break in the middle of a printed line: the
+                # lines come back with the printer's indentation in unpredictable amounts and without empty last lines
+                def shape(t):
+                    ls = [l.lstrip(" ") for l in t.split("\n")]
+                    while ls and ls[-1] == "":
+                        ls.pop()
+                    return ls
+                if shape(pred) == shape(g):
+                    continue
+            return False
+    return changed
+
+
+@model("string-escape-rules")
+def _m_string_escape(v):
+    """Trigger: a string value containing a backslash, carriage return or form feed. Predicted observation: the value that
+    comes back is exactly the one the documented (lossy) escape rules give for the printed literal, or - when the printed
+    text is not a lexable literal - the text is rejected."""
+    w = v.get("witness") or {}
+    sig = v.get("sig", "")
+    strings = []
+    _walk_params(v.get("input"), strings)
+    trig = [(k, s, q) for k, s, q in strings if _trigger(s)]
+    if not trig:
+        return False
+    if "expected" in w and "got" in w:
+        return _explains_value_change(w["expected"], w["got"])
+    fd = w.get("first_difference")
+    if fd and len(fd) == 6:
+        return _explains_value_change(fd[4], fd[5])
+    if "rejected" in sig or "differs" in sig:
+        # the printed text does not parse (or parses to something else): only explained if a literal is predicted unlexable
+        return any(sim_print_parse(s, q, k) is None for k, s, q in trig)
+    return False
